@@ -145,6 +145,8 @@ static int optional_hook(m_mod_t *mod, enum mod_hook req_hook) {
     int ret;
 
     M_MEM_LOCK(mod, {
+        /* Hooks nest (a callback may start/stop other modules): give the outer one back its turn afterwards */
+        m_mod_t *prev_mod = mod->ctx->curr_mod;
         mod->ctx->curr_mod = mod;
         switch (req_hook) {
         case MOD_START:
@@ -165,7 +167,7 @@ static int optional_hook(m_mod_t *mod, enum mod_hook req_hook) {
         default:
             break;
         }
-        mod->ctx->curr_mod = NULL;
+        mod->ctx->curr_mod = prev_mod;
 
         ret = bool_ret ? 0 : -1;
         if (m_mod_is(mod, M_MOD_ZOMBIE)) {
